@@ -10,14 +10,14 @@ GenNext ==
     \/ Tick /\ h' = Append(h, [ev |-> "Tick", dt |-> 0, t |-> "", n |-> ""])
     \/ Dispatch /\ h' = Append(h, [ev |-> "Dispatch", dt |-> 0, t |-> "", n |-> ""])
     \/ NewTarget /\ h' = Append(h, [ev |-> "NewTarget", dt |-> 0, t |-> "", n |-> ""])
-    \/ \E dt \in Jumps : Advance(dt) /\ h' = Append(h, [ev |-> "Advance", dt |-> dt, t |-> "", n |-> ""])
-    \/ \E dt \in Jumps : Skip(dt) /\ h' = Append(h, [ev |-> "Skip", dt |-> dt, t |-> "", n |-> ""])
+    \/ \E dt \in JumpsOf : Advance(dt) /\ h' = Append(h, [ev |-> "Advance", dt |-> dt, t |-> "", n |-> ""])
+    \/ \E dt \in JumpsOf : Skip(dt) /\ h' = Append(h, [ev |-> "Skip", dt |-> dt, t |-> "", n |-> ""])
     \/ \E dt \in Lates : LateTick(dt) /\ h' = Append(h, [ev |-> "LateTick", dt |-> dt, t |-> "", n |-> ""])
     \/ Pause /\ h' = Append(h, [ev |-> "Pause", dt |-> 0, t |-> "", n |-> ""])
     \/ Unpause /\ h' = Append(h, [ev |-> "Unpause", dt |-> 0, t |-> "", n |-> ""])
     \/ \E n \in Nodes : \E x \in exec[n] : Complete(n, x) /\ h' = Append(h, [ev |-> "Complete", dt |-> 0, t |-> x, n |-> n])
 GenSpec == GenInit /\ [][GenNext]_gvars
 View == fvars
-CfgJson == [start |-> cfg.start, nodes |-> cfg.nodes]
+CfgJson == [start |-> cfg.start, late |-> cfg.late, nodes |-> cfg.nodes]
 Emit == PrintT(<<"SCHED", ToJson([cfg |-> CfgJson, h |-> h'])>>)
 =============================================================================
